@@ -63,7 +63,7 @@ struct Ctx<'a> {
 fn expect_hash(c: &mut Ctx, p: &PersistentState, want: &[u8; 32], what: &str) -> Result<(), String> {
     let h = hash_bytes(&p.hash(&mut c.loader));
     if &h != want {
-        return Err(format!("{}: hash {} differs from the reference hash of the contents {}", what, vmon_core::hex(&h), vmon_core::hex(want)));
+        return Err(format!("{}: hash {} differs from the reference hash of the contents {}", what, hx(&h), hx(want)));
     }
     Ok(())
 }
@@ -259,7 +259,7 @@ fn persistence_chain(c: &mut Ctx, mut p: PersistentState, m: &Model, want: &[u8;
                     let k = near_key(c.r, &keys);
                     let got = look(&mut st, &mut c.loader, &k);
                     if got.as_ref() != m.get(&k) {
-                        return Err(format!("lookup in thawed state of {} gives {:?}", vmon_core::hex(&k), got.map(|g| g.len())));
+                        return Err(format!("lookup in thawed state of {} gives {:?}", hx(&k), got.map(|g| g.len())));
                     }
                 }
                 let mut sc = SizeCollector::default();
@@ -338,10 +338,10 @@ fn check_pinned(sh: &mut Shard, idx: u64) {
     let print = std::env::var("VMON_PRINT_VECTORS").is_ok();
     for (i, (name, m)) in pinned_contents().into_iter().enumerate() {
         let p = PersistentState::from_iterator(m.iter().map(|(k, v)| (&k[..], v.clone())));
-        let h = vmon_core::hex(&hash_bytes(&p.hash(&mut loader)));
+        let h = hx(&hash_bytes(&p.hash(&mut loader)));
         let mut ser = vec![];
         let _ = p.serialize(&mut loader, &mut ser);
-        let sd = vmon_core::hex(&sha2::Sha256::digest(&ser));
+        let sd = hx(&sha2::Sha256::digest(&ser));
         if print {
             println!("    (\"{}\", \"{}\"), // {}", h, sd, name);
             continue;
@@ -349,7 +349,7 @@ fn check_pinned(sh: &mut Shard, idx: u64) {
         sh.evaluations += 1;
         sh.hit("pinned.checked");
         let (rh, _) = reference_hash(&m);
-        if vmon_core::hex(&rh) != PINNED[i].0 {
+        if hx(&rh) != PINNED[i].0 {
             sh.inconclusive.push(format!("pinned vector '{}': the reference hash does not reproduce the pinned hash (harness inconsistency)", name));
         }
         if h != PINNED[i].0 {
@@ -416,7 +416,7 @@ pub fn run(ctx: &ChildCtx, sh: &mut Shard) {
             Ok(())
         });
         let log = c.log.clone();
-        let contents: Vec<String> = m.iter().map(|(k, v)| format!("{} -> {} bytes", vmon_core::hex(k), v.len())).collect();
+        let contents: Vec<String> = m.iter().map(|(k, v)| format!("{} -> {} bytes", hx(k), v.len())).collect();
         let hm = vmon_core::fnv(format!("{:?}", m).as_bytes());
         if m.len() >= 3 && stats.odd_stems >= 1 {
             sh.nontrivial(hm);
@@ -427,6 +427,6 @@ pub fn run(ctx: &ChildCtx, sh: &mut Shard) {
             Ok(Err(e)) => sh.violate(idx, "hash-or-persistence", format!("c04:{:016x}:{:016x}", hm, vmon_core::fnv(log.join(";").as_bytes())), format!("{}\nsteps:\n  {}", e, log.join("\n  ")), json!({"contents": contents, "steps": log})),
             Err(p) => sh.violate(idx, "panic", format!("c04:panic:{:016x}", hm), format!("panic: {}\nsteps:\n  {}", p, log.join("\n  ")), json!({"contents": contents, "steps": log})),
         }
-        sh.sample(|| json!({"contents": contents.iter().take(12).collect::<Vec<_>>(), "reference_hash": vmon_core::hex(&want), "steps": log.iter().take(20).collect::<Vec<_>>()}));
+        sh.sample(|| json!({"contents": contents.iter().take(12).collect::<Vec<_>>(), "reference_hash": hx(&want), "steps": log.iter().take(20).collect::<Vec<_>>()}));
     }
 }
